@@ -272,7 +272,7 @@ type emitSite struct {
 	op       string // opcode constant name ("" if not constant)
 	lastOp   string // the last opcode the call emits (differs from op only for a helper that emits several)
 	operands []ssa.Value
-	known    bool // operand list statically known
+	known    bool      // operand list statically known
 	posVal   ssa.Value // the value that carries the position of the instruction (the call; the first result of a helper that hands the position back)
 	handed   bool      // a helper emitted it and handed the position back
 }
